@@ -65,6 +65,7 @@ type CheckRun struct {
 	explanation  string
 	bounds       map[string]interface{}
 	replayBudget int
+	vseq         int
 	slow         []slowJob
 	witnessed    int
 	groupKey     func(v Violation) string
@@ -146,6 +147,31 @@ func (cr *CheckRun) absorb(jobs []Job, res []*JobResult) {
 			}
 		}
 	}
+}
+
+// validateNatively runs a harness job natively with the given model (may be empty: all symbolic inputs default) and
+// checks that the real build agrees with the executor: the reachability witness is hit and no other assertion fails.
+func (cr *CheckRun) validateNatively(j Job, model map[string]ModelVal, choices map[string]int) {
+	cr.vseq++
+	rr := Replay(cr.P, ReplaySpec{Property: cr.ID, Pkg: j.Pkg, Fn: j.Fn, Label: "witness", Params: j.Params, Model: model, Choices: choices}, 900+cr.vseq)
+	bad := ""
+	for _, line := range strings.Split(rr.Output, "\n") {
+		if strings.HasPrefix(line, "VF-VIOLATED ") && line != "VF-VIOLATED witness" {
+			bad = line
+		}
+		if strings.Contains(line, "VF-PANIC") || strings.HasPrefix(line, "panic:") {
+			bad = line
+		}
+	}
+	if rr.Reproduced && bad == "" {
+		cr.validated++
+		return
+	}
+	tail := rr.Output
+	if len(tail) > 500 {
+		tail = tail[len(tail)-500:]
+	}
+	cr.note("native validation run of " + j.Fn + " " + j.Tag + " disagrees with the executor: " + bad + " " + tail)
 }
 
 func caseOf(j Job) string {
